@@ -151,6 +151,30 @@ func TestC10(t *testing.T) {
 				}
 				g, w := render(gotM), render(wantM)
 				if strings.Join(g, "|") != strings.Join(w, "|") {
+					// a stale in-flight maintenance write can transiently un-converge a settled ring
+					// (see C01): the listing counts only if it is wrong again on the re-settled ring
+					persistent := true
+					for try := 0; try < 3 && persistent; try++ {
+						if _, c3 := r.settle(20, true, nil); c3.Problem != "" {
+							persistent = false
+							break
+						}
+						var again []*protocol.KeyComposite
+						if err := retryKV(func() (e error) { again, e = m.Node.ListKeys(ctx, []byte(prefix)); return }); err != nil {
+							continue
+						}
+						am := map[kk]int{}
+						for _, kc := range again {
+							am[kk{string(kc.GetKey()), kc.GetType().String()}]++
+						}
+						if strings.Join(render(am), "|") == strings.Join(w, "|") {
+							persistent = false
+						}
+					}
+					if !persistent {
+						rec.Inconclusive("transient-listing-mismatch-not-reproducible-on-settled-ring")
+						return
+					}
 					sig := "listing-differs-from-stored-keys"
 					switch {
 					case len(g) > len(w):
